@@ -1098,7 +1098,8 @@ Qed.
 (* ... and they are part of the oracle that judges the implementation *)
 Theorem oracle_includes_safety : forall n ops o, check_C09 n ops o = true -> check_C09_safety o = true.
 Proof.
-  unfold check_C09, check_C09_safety. intros. apply andb_prop in H. destruct H as (H & _).
+  unfold check_C09, check_C09_safety. intros. apply andb_prop in H. destruct H as (_ & H).
+  apply andb_prop in H. destruct H as (H & _).
   eapply check_calls_imp; eauto.
 Qed.
 
@@ -1480,6 +1481,7 @@ Qed.
 
 Theorem oracle_includes_values : forall n ops o, check_C09 n ops o = true -> check_C09_values ops o = true.
 Proof.
-  unfold check_C09, check_C09_values. intros n ops o H. apply andb_prop in H. destruct H as (H1 & H2).
+  unfold check_C09, check_C09_values. intros n ops o H. apply andb_prop in H. destruct H as (_ & H).
+  apply andb_prop in H. destruct H as (H1 & H2).
   apply andb_true_intro. split; [eapply check_calls_imp_values; eauto|eapply check_groups_imp_values; eauto].
 Qed.
